@@ -5,14 +5,17 @@
    recycle on every exit).  The evaluator state [evalst] = (overlay, Payset, corrupted flag);
    the overlay holds all account writes, asset params / holdings / creatables, txids, leases,
    txnCount and feesCollected, so equality of [evalst] is equality of every observable.
-   Transactions: payment, keyreg, asset config / transfer / freeze; application calls excluded.  Not modelled: blockTxBytes
+   Transactions: payment, keyreg, asset config / transfer / freeze, application calls whose
+   program is any finite script of ledger operations (boxes, global / local state, inner
+   payment / asset transactions) ending in approve / reject / failure; the program runs in a
+   calf (child of the transaction's cow) exactly as StatefulEval does.  Not modelled: blockTxBytes
    (ErrNoSpace), tracer hooks, a panic after the commit point (corruptedState is only ever
    read), Go-level aliasing of pooled cows (observable in the harness only). *)
 From Coq Require Import NArith ZArith List Bool String.
 Import ListNotations.
 From Verif.lib Require Import Term.
 From Verif.model Require Import Overflow EvalCow EvalApply EvalGroup EvalSpec EvalCheck.
-From Verif.proofs Require Import EvalCowProofs EvalGroupProofs EvalSpecProofs.
+From Verif.proofs Require Import EvalCowProofs EvalGroupProofs EvalConserveProofs EvalMinBalProofs EvalSpecProofs EvalTheorems.
 Open Scope N_scope.
 
 (* every write of a group -- also those made before a failing member -- lands in the child *)
@@ -47,6 +50,16 @@ Theorem C19_group_all : forall E ev g lf ev',
 Proof. exact group_all. Qed.
 Print Assumptions C19_group_all.
 
+(* a rejecting or failing program -- at any script position, also after inner transactions --
+   leaves the transaction's cow exactly as it was; an approving one writes nothing below it.
+   (C19_group_atomic above already covers groups containing such calls: [transaction_group]
+   is the same function.) *)
+Theorem C19_program_atomic : forall E app clear script acc c c' r,
+  stateful_eval E app clear script acc c = (c', r) ->
+  (r <> Ok true -> c' = c) /\ same_below c c'.
+Proof. exact program_atomic. Qed.
+Print Assumptions C19_program_atomic.
+
 (* commitToParent does not change what lookups see *)
 Theorem C19_commit_preserves_view : forall c a, okc c -> lookup (commit c) a = lookup c a.
 Proof. exact lookup_commit. Qed.
@@ -63,9 +76,9 @@ Theorem C19_group_step_ok_sound : forall sink before g, group_step_ok sink befor
   (g_code g <> 0 -> g_snap g = before) /\
   (g_code g = 0 ->
      s_payset (g_snap g) = s_payset before + N.of_nat (List.length (g_txns g)) /\
-     s_txncount (g_snap g) = s_txncount before + N.of_nat (List.length (g_txns g)) /\
+     s_txncount before + N.of_nat (List.length (g_txns g)) <= s_txncount (g_snap g) /\
      s_txids (g_snap g) = s_txids before ++ map (fun tx => (t_txid tx, t_lv tx)) (g_txns g) /\
-     s_fees (g_snap g) = (s_fees before + fees_of sink (g_txns g)) mod 2 ^ 64).
+     s_fees before + fees_of sink (g_txns g) <= s_fees (g_snap g)).
 Proof. exact group_step_ok_sound. Qed.
 Print Assumptions C19_group_step_ok_sound.
 
